@@ -126,6 +126,7 @@ def run(tier, seed):
     _rejection(rep, prog)
     _event(rep, prog)
     _grid(rep, prog)
+    _fresh_tables(rep, prog)
     return rep
 
 
@@ -912,3 +913,42 @@ def _grid(rep, prog):
             else:
                 rep.cannot_decide('GRID.step', where(f, p_.line), '%s: no definition of the step `%s` dominates the grid loop' % (f['name'], sname))
     rep.floor('GRID.step', n, 1)
+
+
+# ----------------------------------------------------------------------------------------------- TABLES
+def _fresh_tables(rep, prog):
+    """the loaders append (push_back) to the tables of the private object: every load must start from empty tables, whatever an
+    earlier - possibly failed, half-parsed - initialisation left behind"""
+    from ..rules import cppflow
+    rep.rule('TABLES.fresh', 'in dbd_gA::initialize every table loader call is dominated by `_pimpl_.reset(new pimpl_type)` (a freshly '
+             'constructed, empty private object) or by a call that clears the private object: the loaders append, so tables kept from '
+             'an earlier load - e.g. one that threw half-way through a malformed file - would be inverted together with the new ones')
+    ini = prog.fn('bxdecay0::dbd_gA::initialize')
+    F = cppflow.Flow(ini)
+    calls = list(F.nodes(kind='call'))
+    loaders = [c for c in calls if c.stmt[1].split('::')[-1].startswith('_load_')]
+    if not loaders:
+        raise AnalysisBroken('dbd_gA::initialize: no `_load_*` call found')
+    def _is_pimpl(a):
+        return '_pimpl_' in ir.fmt(a)
+    fresh = [c for c in calls if c.stmt[1].endswith('unique_ptr::reset') and len(c.stmt[2]) >= 2 and _is_pimpl(c.stmt[2][0])
+             and ir.fmt(c.stmt[2][1]).startswith('new(')]
+    fresh += [a for a in F.nodes(kind='assign') if _is_pimpl(a.stmt[1]) and ('make_unique' in ir.fmt(a.stmt[2]) or ir.fmt(a.stmt[2]).startswith('new('))]
+    clears = [c for c in calls if c.stmt[1].split('::')[-1] in ('clear', 'reset', 'clean') and c not in fresh and c.stmt[2]
+              and _is_pimpl(c.stmt[2][0]) and not c.stmt[1].endswith('unique_ptr::reset')]
+    for ld in loaders:
+        nm = ld.stmt[1].split('::')[-1]
+        if any(F.dominates(x, ld) for x in fresh):
+            rep.add('TABLES.fresh', nm, where(ini, ld.line), '%s() fills a private object constructed on this very call of initialize()' % nm, True)
+        elif any(F.dominates(x, ld) for x in clears):
+            rep.cannot_decide('TABLES.fresh', where(ini, ld.line), '%s() is preceded by a clearing call on the private object, not by a fresh '
+                              'construction: whether that call empties every table is not decided here' % nm)
+        elif fresh and not clears:
+            cond = [x for x in fresh if not F.dominates(x, ld)]
+            rep.add('TABLES.fresh', nm, where(ini, ld.line), '%s() fills a private object constructed on this very call of initialize()' % nm, False,
+                    ['the construction of the private object at line %s is conditional and nothing clears the object on the other path: '
+                     'tables appended by an earlier initialize() that threw inside a loader are still there, and the loaders append'
+                     % (cond[0].line if cond else '?')])
+        else:
+            rep.cannot_decide('TABLES.fresh', where(ini, ld.line), '%s(): no construction or clearing of the private object recognised before it' % nm)
+    rep.floor('TABLES.fresh', len(loaders), 2)
